@@ -206,7 +206,14 @@ struct Codec
     {
       // null terminator is included in the len for c style strings
       uint32_t const len = conditional_arg_size_cache[conditional_arg_size_cache_index++];
-      std::memcpy(buffer, arg, len - 1);
+
+      if (QUILL_LIKELY(len > 1))
+      {
+        // a nullptr is encoded as an empty string, do not pass it to memcpy (undefined behaviour
+        // even when the size is zero)
+        std::memcpy(buffer, arg, len - 1);
+      }
+
       buffer[len - 1] = std::byte{'\0'};
       buffer += len;
     }
